@@ -61,7 +61,7 @@ CHECKS.update({
 CHECKS.update({
  'C06': dict(text="Theorems C06_* (Coq): the model of operator== (size, cached edge number, label map, mutual adjacency inclusion) is defined on any two graphs satisfying the invariant "
                   "and is true exactly when sizes, edge sets and labels agree; for ANY two valid histories the verdict equals 'the two histories denote the same graph' (so insertion "
-                  "order and past content cannot matter); reflexive, symmetric and (C06_trans, C06_undirected_trans) transitive whenever the label type's == is, i.e. an equivalence relation on reachable graphs. C06_undirected_eq / C06_undirected_histories / C06_multigraph_histories / C06_weighted_histories / "
+                  "order and past content cannot matter); reflexive, symmetric and (C06_trans, C06_undirected_trans, C06_multi_weighted_trans) transitive whenever the label type's == is, i.e. an equivalence relation on reachable graphs. C06_undirected_eq / C06_undirected_histories / C06_multigraph_histories / C06_weighted_histories / "
                   "C06_multi_weighted_states: the same for the undirected class, both multigraphs and both weighted graphs (verdict = equality of the spec maps; totals, which operator== "
                   "does not compare, are then equal anyway), and the verdict is literally the executable spec verdict the test's oracle computes. For weighted graphs with arbitrary "
                   "double weights (where the running total depends on the history) pairs of histories of one graph are compared against a Flocq-based model of the stored weights. Tied to /repo by pairs of histories on all eight classes: different constructions of one target, "
